@@ -79,6 +79,19 @@ PROPS = {
             "little-endian host (integer keys compared as native unsigned integers)",
         ],
     },
+    "C20": {
+        "level": "exploration",
+        "tests": [
+            T("TestC20One", "kv", 30000, 3200000, shards=16),
+            T("TestC20DBI", "kv", 10000, 1600000, shards=16),
+            T("TestC20Cycle", "kv", 800, 96000, shards=16),
+        ],
+        "assumptions": [
+            "default LMDB dupsort order (bytewise keys, bytewise values); integer-dup / reverse-dup DBIs are out of scope",
+            "pairs with an empty value are excluded from the mirror cycle (known finding shadow-empty-value) and counted",
+            "remote timestamps are far in the past relative to the wall clock",
+        ],
+    },
     "C15": {
         "level": "exploration",
         "tests": [
